@@ -12,6 +12,8 @@
    per artefact kind, equality on the listed observables.                 *)
 EXTENDS Integers, Sequences, FiniteSets, SequencesExt, FiniteSetsExt, Json, IOUtils, TLC
 
+VARIABLE cur      \* the case under examination (one TLC state per case)
+
 CONSTANTS MaxDepth, Keys
 
 (* ---- configuration value grammar --------------------------------------- *)
@@ -71,15 +73,14 @@ ResumeKeys == {"dims", "parameters", "periodic_parameters", "prior_bounds", "bou
 Cases == ConfigCases \cup SampleCases \cup HistoryCases \cup TransformCases \cup FlowCases \cup ResumeCases
 
 \* laws of the normalisation itself
-NormIdempotent == \A v \in Vals(MaxDepth) : NormDeep(NormDeep(v)) = NormDeep(v)
-NormKeepsSentinels == \A v \in Vals(MaxDepth) : (v.t \in {"none", "emptydict"}) => NormDeep(v) = v
-ASSUME NormIdempotent /\ NormKeepsSentinels
+NormIdempotent == \A v \in {cur} : NormDeep(NormDeep(v)) = NormDeep(v)
+NormKeepsSentinels == \A v \in {cur} : (v.t \in {"none", "emptydict"}) => NormDeep(v) = v
 ASSUME PrintT(<<"NCASES", Cardinality(Cases)>>)
 ASSUME JsonSerialize(IOEnv.OUT_FILE, [cases |-> SetToSeq(Cases), resume_keys |-> SetToSeq(ResumeKeys),
                                        sample_observables |-> SetToSeq(SampleObservables)])
 
-VARIABLE dummy
-Init == dummy = 0
-Next == UNCHANGED dummy
-Spec == Init /\ [][Next]_dummy
+\* one TLC state per case: the laws are state invariants evaluated on every case
+Init == cur \in Vals(MaxDepth)
+Next == UNCHANGED cur
+Spec == Init /\ [][Next]_cur
 =============================================================================
